@@ -90,7 +90,6 @@ def render_doc(d, rng):
 
 DRIVER = r'''
 import sys, json, logging, warnings, tempfile, os
-sys.path.insert(0, "/repo")
 logging.disable(logging.CRITICAL)
 from mosromgr.mostypes import MosFile
 from mosromgr import exc
@@ -112,7 +111,6 @@ json.dump(out, sys.stdout)
 
 def classify_all(docs, seed):
     """docs: list of (id, abstract doc).  Returns events for the judge."""
-    sys.path.insert(0, "/repo")
     import logging
     logging.disable(logging.CRITICAL)
     from mosromgr.mostypes import MosFile
